@@ -145,6 +145,7 @@ class PathSum:
         self._alias = {}               # helper parameter id -> caller local id (by-value parameter fed from a plain local)
         self.curried = set()           # parser factories written in uncurried form (ctx.., input)
         self._tsub = {}                # type parameter -> type, while a generic helper is evaluated in place
+        self.tag_fn = None             # def path of the library's tag combinator, when the analysed crate has one
         self.take_while_fn = None      # def path of the library's take_while combinator, when the analysed crate has one
         self.loops = {}
         self.npaths = 0
@@ -431,6 +432,34 @@ class PathSum:
                     for y2 in m1:
                         out_m += self._bind_rest(y2, t, p, nb, na)
                 return out_m, no_l
+            if nb == 1 and na == 0 and p["slice"] and self.tag_fn and self._lit_byte(p["before"][0]) is not None:
+                # `[b'x', rest @ ..]` on a slice is what the library's own tag(b'x') recognises: evaluated as an application of
+                # that combinator (rest = its remainder), so that a parser written with slice patterns is seen like one
+                # written with the combinator
+                b_ = self._lit_byte(p["before"][0])
+                site = loc(p) if p.get("sp") else "?"
+                fterm = ("call", self.tag_fn, (("lit", "byte", b_),), site)
+                app = ("apply", fterm, (t,), site)
+                d = self.decided(st, app, OK)
+                outs_y, outs_n = [], []
+                if d is not False:
+                    y = st.fork() if d is True else st.with_cond(("is", app, OK, True))
+                    if not any(e_[0] == "apply" and e_[1] == fterm and e_[2] == (t,) for e_ in y.effects):
+                        y.add_effect(("call", self.tag_fn, (("lit", "byte", b_),), site))
+                        y.add_effect(("apply", fterm, (t,), site))
+                    sl = p.get("slice")
+                    if isinstance(sl, dict) and sl.get("k") == "Bind":
+                        m_, _ = self.match_pat(y, ("tproj", ("payload", app, OK, 0), 0), sl)
+                        outs_y += m_
+                    else:
+                        outs_y.append(y)
+                if d is not True:
+                    n_ = st.fork() if d is False else st.with_cond(("is", app, OK, False))
+                    if not any(e_[0] == "apply" and e_[1] == fterm and e_[2] == (t,) for e_ in n_.effects):
+                        n_.add_effect(("call", self.tag_fn, (("lit", "byte", b_),), site))
+                        n_.add_effect(("apply", fterm, (t,), site))
+                    outs_n.append(n_)
+                return outs_y, outs_n
             c = ("slicepat", t, nb, bool(p["slice"]), na)
             yes = st.with_cond(c + (True,))
             items = [(("index", t, ("lit", "int", i)), sp) for i, sp in enumerate(p["before"])]
@@ -443,6 +472,13 @@ class PathSum:
             m, u = self.match_pat(st, t, p["pat"])
             return m, u
         raise Unsupported("pattern " + k)
+
+    def _lit_byte(self, sp):
+        while sp.get("k") in ("Ref", "Deref"):
+            sp = sp["pat"]
+        if sp.get("k") == "Lit" and sp["lit"].get("t") in ("byte", "int") and isinstance(sp["lit"].get("v"), int):
+            return sp["lit"]["v"]
+        return None
 
     def _bind_rest(self, st, t, p, nb, na):
         """`rest @ ..` in a slice pattern without trailing elements is t[nb..]"""
